@@ -101,12 +101,21 @@ package beacon
 //@   ensures ok == ch_known_at(gvver, root, slot)
 //@   ensures ok ==> entry == ch_entry_at(gvver, root, slot) && entry != nil
 
+// ---------------------------------------------------------------- fork upgrades (C14)
+// st_fork: the fork of a state by its dynamic type; up_chain: the sequence of upgrade steps UpgradeMaybe
+// performs for a state at slot sl (a step fires when the state is of the previous fork and sl is the first
+// slot of the fork's epoch; several forks scheduled for the same epoch upgrade in one call).
+//@ define st_fork(x StateI) int = ite(isptrto(x, phase0.BeaconStateView), 0, ite(isptrto(x, altair.BeaconStateView), 1, ite(isptrto(x, bellatrix.BeaconStateView), 2, ite(isptrto(x, capella.BeaconStateView), 3, ite(isptrto(x, deneb.BeaconStateView), 4, ite(isptrto(x, electra.BeaconStateView), 5, 0 - 1))))))
+//@ define up_step(f int, from int, sl int, at int) int = ite(f == from && sl == at, from + 1, f)
+//@ define up_chain(f int, sl int, a int, b int, c int, d int, e int) int = up_step(up_step(up_step(up_step(up_step(f, 0, sl, a), 1, sl, b), 2, sl, c), 3, sl, d), 4, sl, e)
+//@ define fork_slot(epoch int, spe int) int = (epoch * spe) % 18446744073709551616
+
 // BEGIN C18 generated (tools/gen_c18.py in /verif)
 // cancelled: a context cancelled before the call makes it fail; surfaced: a cancellation observed by a poll
 // during the call makes it fail; polled: success after a poll means the context was not cancelled at entry.
 
 //@ func (s *StandardUpgradeableBeaconState) UpgradeMaybe(ctx, spec, epc) err
-//@   property C18
+//@   property C18 C14
 //@   panics off
 //@   requires ctx != nil
 //@   opt weakcalls
@@ -118,5 +127,9 @@ package beacon
 //@   loop *
 //@     invariant ctx_t >= old(ctx_t) && (old(ctx_seen) || !ctx_seen)
 //@     invariant ctx_t > old(ctx_t) ==> !ctx_cancelled(ctx, old(ctx_t))
+//@   requires s != nil && spec != nil
+//@   assigns s.BeaconState
+//@   ensures upgraded: err == nil ==> (exists sl :: 0 <= sl && sl < 18446744073709551616 && st_fork(s.BeaconState) == up_chain(old(st_fork(s.BeaconState)), sl, fork_slot(old(spec.ALTAIR_FORK_EPOCH), old(spec.SLOTS_PER_EPOCH)), fork_slot(old(spec.BELLATRIX_FORK_EPOCH), old(spec.SLOTS_PER_EPOCH)), fork_slot(old(spec.CAPELLA_FORK_EPOCH), old(spec.SLOTS_PER_EPOCH)), fork_slot(old(spec.DENEB_FORK_EPOCH), old(spec.SLOTS_PER_EPOCH)), fork_slot(old(spec.ELECTRA_FORK_EPOCH), old(spec.SLOTS_PER_EPOCH))))
+//@   ensures known: old(st_fork(s.BeaconState)) >= 0 && err == nil ==> st_fork(s.BeaconState) >= old(st_fork(s.BeaconState))
 
 // END C18 generated
